@@ -36,8 +36,15 @@ func mkVal(kind string, n int) kval {
 		s := fmt.Sprintf("text-%d", n)
 		return kval{kind, s, s}
 	case "XMLSchemaDateTime":
-		t := time.Date(2000+n%50, time.Month(1+n%12), 1+n%28, n%24, n%60, (n*7)%60, 0, time.UTC)
-		return kval{kind, t.Format(time.RFC3339), t}
+		// every third instant has a fraction of a second: what is written
+		// has to denote the instant that was stored (whole seconds are
+		// written without a fraction)
+		ns := 0
+		if n%3 == 0 {
+			ns = (n%9 + 1) * 111000000
+		}
+		t := time.Date(2000+n%50, time.Month(1+n%12), 1+n%28, n%24, n%60, (n*7)%60, ns, time.UTC)
+		return kval{kind, t.Format(time.RFC3339Nano), t}
 	case "XMLSchemaDuration":
 		secs := n%59 + 1
 		return kval{kind, fmt.Sprintf("PT%dS", secs), time.Duration(secs) * time.Second}
